@@ -1,7 +1,7 @@
 """Private helpers shared by c05.py / c06.py / c07.py (list graders and the assignment solver)."""
 import ast
 
-from ..index import AnalysisError, walk_own, unparse, short, parent, ancestors, enclosing_stmt
+from ..index import AnalysisError, walk_own, walk_all, unparse, short, parent, ancestors, enclosing_stmt
 from ..cfg import cfg_of
 from ..effects import FunctionEffects
 from .. import nf, lib
@@ -200,8 +200,15 @@ def const_returns(fn):
                     and s.targets[0].id in st and isinstance(s.value, ast.Constant):
                 st[s.targets[0].id] = s.value.value
             elif isinstance(s, ast.Return):
-                v = ev(s.value, st) if s.value is not None else None
-                results.add(UNKNOWN if v is top else v)
+                def ret_values(e):
+                    if isinstance(e, ast.IfExp):
+                        t = ev(e.test, st)
+                        if t is top:
+                            return ret_values(e.body) | ret_values(e.orelse)
+                        return ret_values(e.body if t else e.orelse)
+                    v = ev(e, st) if e is not None else None
+                    return {UNKNOWN if v is top else v}
+                results |= ret_values(s.value)
         elif node.kind == 'test':
             v = ev(node.ast.test, st)
             if v is not top:
@@ -225,60 +232,97 @@ class Extraction(object):
 
 
 def extraction_facts(idx):
+    """Facts about the code at the end of Munkres.compute that turns starred zeros into (row, col) pairs.
+
+    Two equivalent layouts are understood: nested for-loops that append a pair under `if self.marked[i][j] == 1`,
+    and a comprehension `[(i, j) for i in ... for j in ... if self.marked[i][j] == 1]`.
+    Fields: row_idx/col_idx (Name nodes), test, nest [(var, iter, node)] outermost first, loops {var: (iter, node)},
+    pair (Tuple), emit_kind 'append'|'prepend'|None, emit_node, extra (other conditions), for_loops, returns_collection.
+    """
     fi = idx.func(MUNKRES + '.compute')
     selfn = fi.params[0]
     tests = []
-    for n in walk_own(fi.node):
+    for n in walk_all(fi.node):
         if isinstance(n, ast.Compare) and len(n.ops) == 1 and isinstance(n.left, ast.Subscript) \
                 and isinstance(n.left.value, ast.Subscript) and is_self_attr(n.left.value.value, selfn, 'marked'):
             tests.append(n)
     if len(tests) != 1:
         raise AnalysisError('Munkres.compute: expected one test of self.marked[i][j], found %d' % len(tests))
     ex = Extraction()
-    ex.fi = fi
-    ex.selfn = selfn
-    ex.test = tests[0]
-    ex.row_idx = tests[0].left.value.slice
-    ex.col_idx = tests[0].left.slice
+    ex.fi, ex.selfn, ex.test = fi, selfn, tests[0]
+    ex.row_idx, ex.col_idx = tests[0].left.value.slice, tests[0].left.slice
     if not (is_name(ex.row_idx) and is_name(ex.col_idx)):
         raise AnalysisError('Munkres.compute: marked[..][..] is not indexed by plain loop variables')
-    ex.loops = {}
-    order = []
+    comp = None
     for a in ancestors(tests[0]):
-        if isinstance(a, ast.For) and isinstance(a.target, ast.Name):
-            order.append(a)
-            ex.loops[a.target.id] = a
-        if a is fi.node:
+        if isinstance(a, (ast.ListComp, ast.GeneratorExp)):
+            comp = a
             break
-    ex.nest = list(reversed(order))          # outermost first
-    ifs = [a for a in ancestors(tests[0]) if isinstance(a, ast.If)]
-    if not ifs or ifs[0].test is not tests[0] and tests[0] not in list(ast.walk(ifs[0].test)):
-        raise AnalysisError('Munkres.compute: the marked test does not guard an if')
-    ex.guard_if = ifs[0]
-    pairs = [n for s in ex.guard_if.body for n in ast.walk(s) if isinstance(n, ast.Tuple) and len(n.elts) == 2
-             and all(isinstance(e, ast.Name) for e in n.elts) and isinstance(n.ctx, ast.Load)]
-    if len(pairs) != 1:
-        raise AnalysisError('Munkres.compute: expected one emitted (row, col) pair, found %d' % len(pairs))
-    ex.pair = pairs[0]
-    st = enclosing_stmt(ex.pair)
-    ex.emit_stmt = st
-    ex.sink = None
-    ex.emit_kind = None
-    if isinstance(st, ast.AugAssign) and isinstance(st.target, ast.Name) and isinstance(st.op, ast.Add):
-        ex.sink, ex.emit_kind = st.target.id, 'append'
-    elif isinstance(st, ast.Assign) and len(st.targets) == 1 and isinstance(st.targets[0], ast.Name) \
-            and isinstance(st.value, ast.BinOp) and isinstance(st.value.op, ast.Add):
-        ex.sink = st.targets[0].id
-        if is_name(st.value.left, ex.sink):
-            ex.emit_kind = 'append'
-        elif is_name(st.value.right, ex.sink):
-            ex.emit_kind = 'prepend'
-    elif isinstance(st, ast.Expr) and isinstance(st.value, ast.Call) and isinstance(st.value.func, ast.Attribute) \
-            and isinstance(st.value.func.value, ast.Name):
-        ex.sink = st.value.func.value.id
-        ex.emit_kind = {'append': 'append', 'insert': 'prepend'}.get(st.value.func.attr)
-    rets = lib.returns_of(fi.node)
-    ex.returns = rets
+        if isinstance(a, ast.stmt):
+            break
+    ex.nest, ex.loops, ex.for_loops, ex.extra = [], {}, [], []
+    ex.sink, ex.emit_kind, ex.emit_node = None, None, None
+    t = nf.canon(tests[0])
+    if comp is not None:
+        conds = [c for g in comp.generators for c in g.ifs]
+        flat = [x for c in conds for x in nf.conjuncts(nf.canon(c))]
+        if not any(nf.equal(x, t) for x in flat):
+            raise AnalysisError('Munkres.compute: the marked test is not a filter of the comprehension')
+        ex.extra = [x for x in flat if not nf.equal(x, t)]
+        for g in comp.generators:
+            if not isinstance(g.target, ast.Name):
+                raise AnalysisError('Munkres.compute: comprehension target is not a name')
+            ex.nest.append((g.target.id, g.iter, comp))
+            ex.loops[g.target.id] = (g.iter, comp)
+        if not (isinstance(comp.elt, ast.Tuple) and len(comp.elt.elts) == 2 and all(isinstance(e, ast.Name) for e in comp.elt.elts)):
+            raise AnalysisError('Munkres.compute: comprehension element is not a pair of names')
+        ex.pair, ex.emit_kind, ex.emit_node = comp.elt, 'append', comp
+        ex.collection = comp
+    else:
+        order = []
+        for a in ancestors(tests[0]):
+            if isinstance(a, ast.For) and isinstance(a.target, ast.Name):
+                order.append(a)
+            if a is fi.node:
+                break
+        for lp in reversed(order):
+            ex.nest.append((lp.target.id, lp.iter, lp))
+            ex.loops[lp.target.id] = (lp.iter, lp)
+            ex.for_loops.append(lp)
+        ifs = [a for a in ancestors(tests[0]) if isinstance(a, ast.If)]
+        if not ifs or not any(x is tests[0] for x in ast.walk(ifs[0].test)):
+            raise AnalysisError('Munkres.compute: the marked test does not guard an if')
+        guard_if = ifs[0]
+        pairs = [n for s in guard_if.body for n in ast.walk(s) if isinstance(n, ast.Tuple) and len(n.elts) == 2
+                 and all(isinstance(e, ast.Name) for e in n.elts) and isinstance(n.ctx, ast.Load)]
+        if len(pairs) != 1:
+            raise AnalysisError('Munkres.compute: expected one emitted (row, col) pair, found %d' % len(pairs))
+        ex.pair = pairs[0]
+        st = enclosing_stmt(ex.pair)
+        ex.emit_node = st
+        ex.extra = [g for g in guards_of(st, stop=fi.node) if not nf.equal(g, t)]
+        if isinstance(st, ast.AugAssign) and isinstance(st.target, ast.Name) and isinstance(st.op, ast.Add):
+            ex.sink, ex.emit_kind = st.target.id, 'append'
+        elif isinstance(st, ast.Assign) and len(st.targets) == 1 and isinstance(st.targets[0], ast.Name) \
+                and isinstance(st.value, ast.BinOp) and isinstance(st.value.op, ast.Add):
+            ex.sink = st.targets[0].id
+            if is_name(st.value.left, ex.sink):
+                ex.emit_kind = 'append'
+            elif is_name(st.value.right, ex.sink):
+                ex.emit_kind = 'prepend'
+        elif isinstance(st, ast.Expr) and isinstance(st.value, ast.Call) and isinstance(st.value.func, ast.Attribute) \
+                and isinstance(st.value.func.value, ast.Name):
+            ex.sink = st.value.func.value.id
+            ex.emit_kind = {'append': 'append', 'insert': 'prepend'}.get(st.value.func.attr)
+        ex.collection = None
+    ex.returns = lib.returns_of(fi.node)
+    ex.bad_returns = []
+    for ret in ex.returns:
+        v = ret.value
+        good = (ex.collection is not None and (v is ex.collection or deref(fi, v) is ex.collection)) or \
+            (ex.collection is None and ex.sink is not None and is_name(v, ex.sink))
+        if not good:
+            ex.bad_returns.append(ret)
     return ex
 
 
@@ -472,12 +516,32 @@ def search_loops_to_conditions(stmts):
     return out
 
 
-def inline(fi, expr):
-    """expr with single-definition locals substituted (canonical)."""
-    return nf.canon(lib.inline_locals(expr, fi.node))
+def inline(fi, expr, keep=()):
+    """expr with single-definition locals substituted (canonical); locals named in `keep` stay."""
+    env = {k: v for k, v in lib.local_env(fi.node).items() if k not in keep}
+    cur = expr
+    for _ in range(4):
+        new = nf.subst(cur, env)
+        if ast.dump(new) == ast.dump(cur):
+            break
+        cur = new
+    return nf.canon(cur)
 
 
 def calls_unreviewed(idx, node):
     """Names of unreviewed helpers (left un-inlined by the normaliser) that are called under `node`."""
     names = {q.split('.')[-1] for q in getattr(idx, 'unreviewed', []) or []}
     return sorted({nf.callee_name(c) for c in ast.walk(node) if isinstance(c, ast.Call) and nf.callee_name(c) in names})
+
+
+def guarded(ctx, fn, idx):
+    """Run one rule function; an unexpected exception inside the checker is an analysis error (exit 2), never a crash."""
+    try:
+        fn(ctx, idx)
+    except AnalysisError:
+        raise
+    except Exception as e:       # pragma: no cover - defensive
+        import traceback
+        tb = traceback.extract_tb(e.__traceback__)[-1]
+        r = ctx.rule('%s.INTERNAL' % fn.__name__.upper(), 'the rule could be evaluated')
+        r.undecided('<checker>', 'internal error in %s: %s: %s (%s:%d)' % (fn.__name__, type(e).__name__, e, tb.filename.split('/')[-1], tb.lineno))
